@@ -568,8 +568,14 @@ fn single_history(rng: &mut Rng, rep: &mut Report, case_no: u64, len: usize) {
     }
 }
 
+#[cfg(not(feature = "parallel"))]
+fn stress(_rng: &mut Rng, _rep: &mut Report, _case_no: u64, _nthreads: usize, _ops: u64) {
+    // without the `parallel` feature a World is not Sync: there is no multi-threaded use to test
+}
+
 /// Many threads on few slots. The shadow value changes strictly inside guard lifetimes, so an
 /// observed conflict implies two incompatible live guards.
+#[cfg(feature = "parallel")]
 fn stress(rng: &mut Rng, rep: &mut Report, case_no: u64, nthreads: usize, ops_per_thread: u64) {
     rep.evaluations += 1;
     let mut world = World::empty();
